@@ -37,6 +37,31 @@ Theorem c07_thread_order : forall (aok : ck -> bool) (acts : list act) (l : list
 Proof. exact thread_order. Qed.
 Print Assumptions c07_thread_order.
 
+(* … and WITHOUT AppendOk (run_session drops the result of every thread append: `let _ = continuities.append_…`): failing
+   appends delete exactly the thread frames whose append failed - nothing else of the run changes (same session frames, same
+   seqs, same reasons) … *)
+Theorem c07_failing_appends_only_delete : forall (g : cfg) (sid : N) (link : option N) (aok : ck -> bool) (inp : input),
+  run_session g sid link aok inp = filter (keeps aok) (run_session g sid link all_ok inp).
+Proof. exact run_session_keeps. Qed.
+Print Assumptions c07_failing_appends_only_delete.
+
+(* … so under ARBITRARY failing appends (only the message and its run_spawned reached the thread), under every schedule,
+   the run's projection of the log is a full AppendOk-shaped sequence - ThreadShape, run_ended right after the terminal
+   session frame and carrying its reason - from which exactly the frames whose append failed are missing: the frames that are
+   there keep their causal order.  (What the harness's oracle checks on fault-injected runs: thread_regex_faulted.) *)
+Theorem c07_thread_order_failing_appends : forall (aok : ck -> bool) (acts : list act) (l : list ev) (g : cfg) (mid sid : N) (inp : input),
+  WfActs acts -> Interleave (map (act_events aok) acts) l -> In (APost g mid sid inp) acts ->
+  aok (CMessage mid) = true -> aok (CRunSpawned sid mid) = true ->
+  exists pre q r,
+    filter (of_run sid) l
+    = filter (keeps aok)
+        (EC (CRunSpawned sid mid) :: ES sid 0 SStarted :: pre ++ [ES sid q (SEnded r); EC (CRunEnded sid mid r)])
+    /\ mid_kinds (map snd (sess_stream sid pre)) = true
+    /\ ThreadShape sid mid
+         (conts (EC (CRunSpawned sid mid) :: ES sid 0 SStarted :: pre ++ [ES sid q (SEnded r); EC (CRunEnded sid mid r)])) r.
+Proof. exact thread_order_faulted. Qed.
+Print Assumptions c07_thread_order_failing_appends.
+
 (* each message that reached the thread has exactly one run_spawned frame *)
 Theorem c07_one_spawn_per_message : forall (aok : ck -> bool) (acts : list act) (l : list ev) (g : cfg) (mid sid : N) (inp : input),
   WfActs acts -> Interleave (map (act_events aok) acts) l -> In (APost g mid sid inp) acts ->
@@ -232,3 +257,11 @@ Example c07_stubborn_provider_as_built :
   /\ last stubborn_run (EC (CMessage 0)) = EC (CRunEnded 1 2 R_MAX_TOOL_CALLS)
   /\ forallb is_refused_answer (repeat refused_answer 64) = true.
 Proof. exact stubborn_run_ends. Qed.
+
+(* failing appends: a full run (selection, compiled, side effects, cursor, run_ended) whose compiled / cursor / run_ended
+   appends fail leaves selection_decided and the side effects, in that order *)
+Example c07_failing_appends_demo :
+  conts (run_session g_prov 100 (Some 200) aok_demo
+           (IPrompt true [ROk [false] true [{| c_allowed := true; c_lock := true; c_tool := {| t_auto := 1; t_res := TDone 0 0 |} |}]; ROk [true] true []]))
+  = [CSelection 100 200; CSideEffects 100].
+Proof. exact faulted_demo. Qed.
